@@ -9,7 +9,7 @@ Driver for stream `witness` (C15). One op per line, one observation per line.
   vs <byte>                        -> ok | err                         (`validScopes`: ScopesFromByte)
   enc <cond>                       -> <hex>                            (`encodeCond`, keys as 33 bytes)
   decs <hex>                       -> ok <signer> <rest-hex> | err    (`decodeSigner`; signer printed with full-width hashes)
-  adm <depth> <cond>               -> ok | err                         (`admit`: the JSON / stack-item decoders)
+  adm <depth> <cond>               -> ok | err                         (`admits`: the JSON / stack-item decoders)
 
 Token grammar (prefix form, blank separated; hashes and keys are hex numbers):
   cond    := B0 | B1 | N cond | A n cond^n | O n cond^n | H hash | G key | E | C hash | K key
@@ -173,7 +173,7 @@ def step (tbl : Array Env) (ws : List String) : Array Env × String :=
     | none => (tbl, "bad-op")
   | "adm" :: d :: rest =>
     match d.toNat?, pCond rest with
-    | some d, some (c, []) => (tbl, if admit c d then "ok" else "err")
+    | some d, some (c, []) => (tbl, if admits c d then "ok" else "err")
     | _, _ => (tbl, "bad-op")
   | ["vs", n] =>
     match n.toNat? with
